@@ -61,7 +61,30 @@ fn arg_u64(args: &[String], name: &str, default: u64) -> u64 {
     arg(args, name).and_then(|v| v.parse().ok()).unwrap_or(default)
 }
 
+/// Re-executes the process with address-space randomisation off, so that nothing that leaks an
+/// address (Lua's `table: 0x…` error texts, pointer-keyed orderings in dependencies) can differ
+/// between two executions of the same (world, plan).
+fn disable_aslr() {
+    if std::env::var_os("BWSIM_NOASLR").is_some() {
+        return;
+    }
+    // SAFETY: plain libc calls at process start, before any thread exists.
+    unsafe {
+        const ADDR_NO_RANDOMIZE: libc::c_ulong = 0x0040000;
+        let cur = libc::personality(0xffff_ffff);
+        if cur == -1 || libc::personality(cur as libc::c_ulong | ADDR_NO_RANDOMIZE) == -1 {
+            return;
+        }
+        std::env::set_var("BWSIM_NOASLR", "1");
+    }
+    use std::os::unix::process::CommandExt;
+    let exe = std::env::current_exe().unwrap_or_else(|_| "/proc/self/exe".into());
+    let err = std::process::Command::new(exe).args(std::env::args_os().skip(1)).exec();
+    eprintln!("bwsim: re-exec without ASLR failed ({err}); continuing with ASLR");
+}
+
 fn main() {
+    disable_aslr();
     let args: Vec<String> = std::env::args().collect();
     let cmd = args.get(1).map(|s| s.as_str()).unwrap_or("");
     let code = match cmd {
@@ -107,8 +130,13 @@ fn cmd_loghash(args: &[String]) -> i32 {
         let sc = props::scenario(prop, props::scenario_seed(seed, prop, i), false);
         for (k, (w, p)) in sc.runs.iter().enumerate() {
             let s = if level == "b" {
+                // level B does not own the kernel schedule: only the schedule-invariant part of
+                // the observation (kind, and the diagnostics / listing) is compared
                 let r = levelb::run_level_b(w, p, None);
-                serde_json::to_string(&r.rr["obs"]).unwrap()
+                match r.obs_kind.as_str() {
+                    "report" | "listing" => serde_json::to_string(&r.rr["obs"]).unwrap(),
+                    k => k.to_string(),
+                }
             } else {
                 let r = worker::run_forked(w, p);
                 serde_json::to_string(&r.rr).unwrap()
@@ -119,6 +147,9 @@ fn cmd_loghash(args: &[String]) -> i32 {
                 h = h.wrapping_mul(0x0000_0100_0000_01b3);
             }
             writeln!(out, "{prop} {i} {k} {h:016x}").unwrap();
+            if std::env::var("BWSIM_DUMP").is_ok() {
+                writeln!(out, "{s}").unwrap();
+            }
         }
     }
     0
